@@ -48,7 +48,7 @@ class YowGroupsProtocolLayer(YowProtocolLayer):
             elif entity.__class__ == RemoveParticipantsIqProtocolEntity:
                 self._sendIq(entity, self.onRemoveParticipantsSuccess, self.onRemoveParticipantsFailed)
             elif entity.__class__ == ListGroupsIqProtocolEntity:
-                self._sendIq(entity, self.onListGroupsResult)
+                self._sendIq(entity, self.onListGroupsResult, self.onListGroupsFailed)
             elif entity.__class__ == LeaveGroupsIqProtocolEntity:
                 self._sendIq(entity, self.onLeaveGroupSuccess, self.onLeaveGroupFailed)
             elif entity.__class__ == InfoGroupsIqProtocolEntity:
@@ -109,6 +109,10 @@ class YowGroupsProtocolLayer(YowProtocolLayer):
 
     def onListGroupsResult(self, node, originalIqEntity):
         self.toUpper(ListGroupsResultIqProtocolEntity.fromProtocolTreeNode(node))
+
+    def onListGroupsFailed(self, node, originalIqEntity):
+        logger.error("Group list failed")
+        self.toUpper(ErrorIqProtocolEntity.fromProtocolTreeNode(node))
 
     def onLeaveGroupSuccess(self, node, originalIqEntity):
         logger.info("Group leave success")
